@@ -1457,10 +1457,9 @@ static int _handle_sm(xmpp_conn_t *const conn,
         conn->sm_state->previd = NULL;
         conn->bound_jid = conn->sm_state->bound_jid;
         conn->sm_state->bound_jid = NULL;
-        if (conn->sm_state->sm_queue.head)
-            conn->sm_state->sm_sent_nr = conn->sm_state->sm_queue.head->sm_h;
-        else
-            conn->sm_state->sm_sent_nr = ul_h;
+        /* `h` is the number of stanzas the server has received on this
+         * session, i.e. the number of the next stanza we (re-)send */
+        conn->sm_state->sm_sent_nr = ul_h;
         _sm_queue_cleanup(conn, ul_h);
         _sm_queue_resend(conn);
         strophe_debug(conn->ctx, "xmpp", "Session resumed successfully.");
